@@ -174,8 +174,13 @@ pub fn abstract_model(m: &Model, it: &mut Interner, bad: &mut Vec<String>) -> Va
         .map(|w| {
             json!({"id": it.id(w.id), "space": it.id(w.space), "cons": it.id(w.cons), "next": it.opt(w.next_to),
                 "bounds": bounds_name(w.bounds),
+                // the classes as the code assigns them, and the angles themselves (floor, fraction in 2^-23, truncated) so that
+                // the specification can classify them with its own tables (Classifiers.tla)
                 "tilt": tilt_name(Tilt::from(w.geometry.tilt)),
                 "orient": orient_name(Orientation::from(w.geometry.azimuth)),
+                "tx": exact_angle(w.geometry.tilt).map(|a| json!([a.0, a.1])).unwrap_or(json!([0, 0])),
+                "ax": exact_angle(w.geometry.azimuth).map(|a| json!([a.0, a.1])).unwrap_or(json!([0, 0])),
+                "angok": exact_angle(w.geometry.tilt).is_some() && exact_angle(w.geometry.azimuth).is_some(),
                 "area": qv(w.area(), 1e4, "wall.area", bad)})
         })
         .collect();
@@ -274,6 +279,17 @@ fn gof(v: &Value, k: &str, scale: f64) -> Option<f32> {
     v.get(k).and_then(|x| x.as_i64()).and_then(|i| if i < 0 { None } else { Some((i as f64 / scale) as f32) })
 }
 
+/// floor and fraction (units of 2^-23, truncated) of an angle; None when it is not a number of moderate size
+pub fn exact_angle(v: f32) -> Option<(i64, i64)> {
+    if !v.is_finite() || v.abs() > 1.0e6 {
+        return None;
+    }
+    let x = v as f64;
+    let i = x.floor();
+    let f = ((x - i) * 8388608.0).floor();
+    Some((i as i64, (f as i64).clamp(0, 8388607)))
+}
+
 pub fn tilt_angle(t: &str) -> f32 {
     match t {
         "TOP" => 0.0,
@@ -293,6 +309,44 @@ pub fn orient_angle(o: &str) -> f32 {
         "SW" => -45.0,
         _ => 0.0,
     }
+}
+
+/// An angle of the class, chosen by the element id among the ends and the inside of the class's intervals
+/// (Classifiers.tla: TOP [0,60] u [300,360), SIDE (60,120) u [240,300), BOTTOM [120,240)), in any period
+pub fn tilt_in_class(t: &str, id: i64) -> f32 {
+    let opts: &[f32] = match t {
+        "TOP" => &[0.0, 0.0, 30.0, 60.0, 300.0, 330.0, 359.99, 360.0, -45.0],
+        "BOTTOM" => &[180.0, 180.0, 120.0, 150.0, 239.99, -180.0, 540.0],
+        _ => &[90.0, 90.0, 60.01, 119.99, 240.0, 270.0, 299.99, -90.0, 450.0],
+    };
+    opts[(id.unsigned_abs() as usize).wrapping_mul(7) % opts.len()]
+}
+/// Same for the compass classes (S = 0, E = +90; S [342,18), SE [18,69), E [69,120), NE [120,157.5), N [157.5,202.5),
+/// NW [202.5,240), W [240,291), SW [291,342) on the angle modulo 360)
+pub fn azimuth_in_class(o: &str, id: i64) -> f32 {
+    let (lo, hi): (f32, f32) = match o {
+        "S" => (-18.0, 18.0),
+        "SE" => (18.0, 69.0),
+        "E" => (69.0, 120.0),
+        "NE" => (120.0, 157.5),
+        "N" => (157.5, 202.5),
+        "NW" => (202.5, 240.0),
+        "W" => (240.0, 291.0),
+        "SW" => (291.0, 342.0),
+        _ => return 0.0,
+    };
+    let k = (id.unsigned_abs() as usize).wrapping_mul(11) % 8;
+    let a = match k {
+        0 | 1 => orient_angle(o),
+        2 => lo,
+        3 => lo + 0.01,
+        4 => hi - 0.01,
+        5 => (lo + hi) / 2.0,
+        6 => lo + (hi - lo) * 0.25,
+        _ => hi - (hi - lo) * 0.2,
+    };
+    // the usual range of the model is (-180, 180]; every other element in another period
+    if k == 6 { a + 360.0 } else if a > 180.0 { a - 360.0 } else { a }
 }
 
 /// Build a concrete model from an abstract one. Ids n become the UUID with 128 bit value n.
@@ -346,8 +400,8 @@ pub fn concretize(a: &Value) -> Model {
             space: uuid_of(gi(w, "space")),
             next_to: opt_uuid_of(w.get("next").and_then(|x| x.as_i64()).unwrap_or(-1)),
             geometry: WallGeom {
-                tilt: tilt_angle(gs(w, "tilt")),
-                azimuth: orient_angle(gs(w, "orient")),
+                tilt: tilt_in_class(gs(w, "tilt"), gi(w, "id")),
+                azimuth: azimuth_in_class(gs(w, "orient"), gi(w, "id")),
                 position: None,
                 polygon: vec![point![0.0, 0.0], point![area, 0.0], point![area, 1.0], point![0.0, 1.0]],
             },
